@@ -205,7 +205,93 @@ def observe(mod, model, mapping, backend):
     return out
 
 
+def import_mmt(ident, role):
+    S = ident if role == "state" else "V"
+    K = ident if role == "parameter" else "kk"
+    I = ident if role == "intermediate" else "qq"
+    return (
+        f"[[model]]\nname: g\nc.{S} = 0.5\nc.w = -1.25\n\n[engine]\ntime = 0 bind time\n\n[c]\n{K} = 2.5\n"
+        f"{I} = {K} * w + 1\ndot({S}) = {I} - {K} * {S}\ndot(w) = {S} + engine.time\n"
+    )
+
+
+def import_route_case(case):
+    """the identifier names a Myokit variable: myokit_to_gotran -> save -> load_ode -> NumPy code, compared
+    with Myokit's own evaluate_derivatives. Slots are matched by the (distinct) initial values, so any
+    renaming the importer applies is fine; an exception anywhere before the module exists is a refusal."""
+    import os
+    import shutil
+    import tempfile
+    import warnings
+
+    import myokit
+    from gotranx.myokit import myokit_to_gotran
+    from gotranx.load import load_ode
+
+    ident, role = case["identifier"], case["role"]
+    text = import_mmt(ident, role)
+    ctx = {"mmt": text, "identifier": ident, "role": role, "route": "myokit"}
+    labs = ["route:myokit", f"role:{role}"]
+    d = tempfile.mkdtemp(prefix="c19mk_", dir=B.scratch_root())
+    try:
+        p = os.path.join(d, "m.mmt")
+        with open(p, "w") as fh:
+            fh.write(text)
+        try:
+            with warnings.catch_warnings():
+                warnings.simplefilter("ignore")
+                model = myokit.load_model(p)
+                model.validate()
+        except Exception:
+            return {"nontrivial": False, "labels": labs + ["outcome:myokit-rejects-the-name"]}
+        B.quiet()
+        try:
+            with warnings.catch_warnings():
+                warnings.simplefilter("ignore")
+                ode = myokit_to_gotran(model.clone())
+                q = os.path.join(d, "o.ode")
+                ode.save(q)
+                saved = open(q).read()
+                ode2 = load_ode(q)
+                code = B.py_code(ode2)
+        except Exception as ex:
+            return {"nontrivial": True, "labels": labs + ["outcome:rejected-by-gotranx"]}
+        ctx["saved"] = saved
+        try:
+            mod = PyMod(code)
+        except Exception as ex:
+            raise Violation(f"C19:import:{ident}:import-{type(ex).__name__}", dict(ctx, error=str(ex)[:300], code=code[-2500:]))
+        try:
+            s0, p0 = mod.init("state"), mod.init("parameter")
+            slots = []
+            for v in (0.5, -1.25):
+                c = [i for i, x in enumerate(s0) if x == v]
+                if len(c) != 1:
+                    raise Violation(f"C19:import:{ident}:initial-values", dict(ctx, init=s0.tolist(), code=code[-2500:]))
+                slots.append(c[0])
+            if 2.5 not in list(p0):
+                raise Violation(f"C19:import:{ident}:constant-value", dict(ctx, parameters=p0.tolist(), code=code[-2500:]))
+            for st_, t in (([0.75, -2.0], 1.5), ([0.5, -1.25], 0.0), ([-3.0, 0.125], 40.0)):
+                want = model.evaluate_derivatives(state=st_, inputs={"time": t})
+                s = np.zeros(len(s0))
+                for sl, v in zip(slots, st_):
+                    s[sl] = v
+                got = mod.ns["rhs"](np.float64(t), s, p0)
+                for sl, w in zip(slots, want):
+                    if not abs(got[sl] - w) <= 1e-9 * max(1.0, abs(w)):
+                        raise Violation(f"C19:import:{ident}:silent-difference", dict(ctx, myokit=list(want), gotranx=np.asarray(got).tolist(), code=code[-2500:]))
+        except Violation:
+            raise
+        except Exception as ex:
+            raise Violation(f"C19:import:{ident}:call-{type(ex).__name__}", dict(ctx, error=str(ex)[:300], code=code[-2500:]))
+        return {"nontrivial": True, "labels": labs + ["outcome:treated-as-model-quantity"]}
+    finally:
+        shutil.rmtree(d, ignore_errors=True)
+
+
 def check_case(case):
+    if case.get("route") == "myokit":
+        return import_route_case(case)
     ident, role, backend = case["identifier"], case["role"], case["backend"]
     if not VAR_RE.match(ident):
         raise Inconclusive("not-an-identifier")
@@ -284,6 +370,43 @@ def enumerate_all(backends=("numpy", "C"), idents=None, procs=16):
         return pool.map(_one, triples, chunksize=8)
 
 
+def _one_import(pair):
+    ident, role = pair
+    case = {"identifier": ident, "role": role, "backend": "numpy", "route": "myokit", "source": "static"}
+    try:
+        info = import_route_case(case)
+        return (pair, None, None, info.get("labels", []), info.get("nontrivial", False))
+    except Violation as v:
+        return (pair, v.signature, {k: (str(x)[:300]) for k, x in v.detail.items() if k != "code"}, [], False)
+    except Exception as ex:
+        return (pair, None, None, [f"harness:{type(ex).__name__}"], False)
+
+
+IMPORT_CORE = sorted(set(INTERNAL + GRAMMAR + SYMPY + ["lambda", "class", "def", "async", "await", "is", "import", "len", "abs", "exp", "log", "floor", "sqrt", "sin", "x", "d", "dV_dt", "dw_dt", "e", "E"]))
+
+
+def import_route(tier, out):
+    """the Myokit / CellML import route: identifiers as names of Myokit variables"""
+    import multiprocessing as mp
+
+    idents = IMPORT_CORE if tier != "thorough" else sorted(set(STATIC))
+    pairs = [(i, r) for i in idents if VAR_RE.match(i) for r in ("state", "parameter", "intermediate")]
+    with mp.get_context("fork").Pool(16) as pool:
+        res = pool.map(_one_import, pairs, chunksize=4)
+    n_labels = {}
+    for pair, sig, detail, labs, nontrivial in res:
+        out["evaluations"] += 1
+        case = {"identifier": pair[0], "role": pair[1], "backend": "numpy", "route": "myokit", "source": "static"}
+        for lab in labs:
+            n_labels[lab] = n_labels.get(lab, 0) + 1
+        if sig is not None:
+            out["failures"].append((sig, case, detail))
+        elif nontrivial:
+            out["nontrivial"].append(X.sha(["myokit", pair[0], pair[1]]))
+    out["labels"] = dict(out.get("labels") or {}, **{f"import-{k}": v for k, v in n_labels.items()})
+    out["coverage"] = dict(out.get("coverage") or {}, import_route_identifiers=len(idents))
+
+
 def extra(tier, seed):
     """thorough: the finite dictionary x roles x {numpy, C} is enumerated exhaustively (jax: the
     generator-internal names and Python keywords)"""
@@ -307,6 +430,7 @@ def extra(tier, seed):
             else:
                 out["nontrivial"].append(X.sha([ident, role, backend, triple[3]]))
         out["coverage"] = {"core_identifiers_enumerated": len(core)}
+        import_route(tier, out)
         return out
 
     model = odeparse.parse_model(BASES[0].format(x0="1.25", abs="abs"))
@@ -321,4 +445,5 @@ def extra(tier, seed):
         else:
             out["nontrivial"].append(X.sha([ident, role, backend]))
     out["coverage"] = {"exhaustive_dictionary": True, "dictionary_size": len(set(STATIC + harvested_pool()))}
+    import_route(tier, out)
     return out
